@@ -226,7 +226,7 @@ def main(tier: str, workers: int = 16) -> int:
         "real_vs_stub": {"real": ["gotranx CLI and API (from /repo working tree)", "typer/click", "black (config discovery and formatter)",
                                   "myokit (CellML import)", "the file system of a scratch project directory"],
                          "stub": ["clang-format (sim/stubs/clang-format, deterministic, failure modes by VERIF_STUB_MODE)",
-                                  "EIO/EACCES/ENOSPC/vanish-after-check through the pathlib seam (sim/fsseam.py)"]},
+                                  "EIO/EACCES/ENOSPC/partial write/vanish-after-check/vanish-before-read through the open()-level seam (sim/fsseam.py)"]},
         "known_findings_hit": known_hits,
         "replays_written": replays,
         "repo": core.repo_state(),
@@ -239,7 +239,7 @@ def main(tier: str, workers: int = 16) -> int:
         ["the reference is the library API called on the same bytes with the options the documentation says apply; the API itself is trusted (its correctness is C01-C08's subject)",
          "in-process invocations share an interpreter; every candidate violation is re-executed as a real process and only reported if it reproduces there; ~1/32 of clean invocations are mirrored as real processes",
          "config discovery is judged only where the documentation is unambiguous (explicit -c, or cwd with .git and pyproject.toml); elsewhere every resolution black could pick is accepted",
-         "call faults cover the pathlib calls gotranx makes itself (is_file, read_text, write_text); Myokit's and black's own file access is faulted only through file state"],
+         "call faults are injected at open() level (builtins.open / io.open, which Path.read_text/write_text go through) plus Path.is_file for the vanish fault; read faults are keyed by the resolved target path, write faults apply to any file below the simulated project"],
         level="exploration",
     )
     print("C18 %s: workers=%d sessions=%d invocations=%d nontrivial=%d violations=%d known=%d mirrors=%d fidelity_mismatch=%d unconfirmed=%d wall=%.1fs" %
